@@ -174,14 +174,17 @@ SqlDocumented(cd) ==
       [] cd.p = "28" -> {"AUTH"}
       [] cd.s \in {"42000", "42P01"} -> {"PERMANENT"}
       [] OTHER -> All
-SqlAttrs == {"absent", "none", "empty", "obj", "str", "int"}
+SqlAttrs == {"absent", "none", "empty", "obj", "str", "int", "bytes", "bytes_nonascii", "big",
+             "float", "list"}
 ArgShapes == {"none", "bare", "bracket", "embedded", "nonstr"}
 DomSql == { [attr |-> a, acode |-> ac, shape |-> sh, scode |-> sc] :
               a \in SqlAttrs, ac \in Codes, sh \in ArgShapes, sc \in Codes }
 \* which code the classifier ends up with ("-" none; "?" a truthy non-code attribute)
 AttrCode(x) == IF x.attr = "str" THEN x.acode
                ELSE IF x.attr = "int" THEN Cd("40001", "40")
-               ELSE IF x.attr = "obj" THEN Cd("?", "?") ELSE Cd("-", "-")
+               ELSE IF x.attr \in {"obj", "bytes", "bytes_nonascii", "big", "float", "list"}
+                    THEN Cd("?", "?")          \* truthy, but its str() is not a documented code
+               ELSE Cd("-", "-")
 SqlFound(x) == IF AttrCode(x).s # "-" THEN AttrCode(x)
                ELSE IF x.shape \in {"bare", "bracket", "embedded"} THEN x.scode ELSE Cd("-", "-")
 PyodbcFound(x) == IF AttrCode(x).s # "-" THEN AttrCode(x)
